@@ -68,7 +68,7 @@ func (c *canon) run() {
 	body.List = c.stmts(body.List)
 	// 3. alias substitution (second copy)
 	if al := c.aliases(body); len(al) > 0 {
-		cl2 := &cloner{info: c.info, subst: al}
+		cl2 := &cloner{info: c.info, subst: al, markAlias: true}
 		body = cl2.Block(body)
 	}
 	nd := *orig
